@@ -808,6 +808,10 @@ def op_page_indent(g, dv, protected):
     return None
   # Set a valid indentation on a random non-first page: at most one deeper than the previous page.
   i = g.rng.randint(1, len(pages) - 1)
+  if g.cfg.get("wild_indent_p") and g.rng.random() < g.cfg["wild_indent_p"]:
+    # any indentation at all, as a client may write it: the list need not be a valid tree
+    return [["UpdateRecord", "_grist_Pages", pages[g.rng.randint(0, len(pages) - 1)][0],
+             {"indentation": g.rng.randint(0, 4)}]]
   prev = pages[i - 1][1]["indentation"] or 0
   nxt = pages[i + 1][1]["indentation"] if i + 1 < len(pages) else 0
   lo = max(0, (nxt or 0) - 1)
@@ -911,6 +915,9 @@ def op_derived_trigger(g, dv, protected):
     return None
   tt, c = g.rng.choice(tgts)
   f = "%s.lookupOrAddDerived(%s=$%s).id" % (tt.tableId, c.colId, a.colId)
+  if g.rng.random() < 0.25:
+    # ... and then fails: the engine takes the record back that the failed evaluation added
+    f = "x = " + f + "\nreturn x // 0"
   return [["AddColumn", t.tableId, g.new_col_id("t"),
            {"type": "Int", "isFormula": False, "formula": f, "recalcWhen": g.rng.choice([2, 2, 0])}]]
 
